@@ -315,6 +315,7 @@ type CGen struct {
 	line     int
 	globals  map[string]string
 	allLocal map[string]cVal // every local ever declared (for invariants)
+	addrTaken    map[string]bool // names whose address is taken somewhere in the function
 	reassigned   map[string]bool // names assigned somewhere other than their declaration (or whose address is taken)
 	directLocals map[string]cVal
 }
@@ -393,6 +394,11 @@ func (g *CGen) registerCHeaps() {
 	for _, s := range []string{"Int", "Bool", "Ptr"} {
 		g.heapFor(s)
 	}
+	if !g.M.BV {
+		for _, s := range []string{"LInt", "LBool", "LPtr"} {
+			g.heapFor(s)
+		}
+	}
 	if g.M.BV {
 		for _, w := range []int{8, 32, 64} {
 			g.heapFor(bvSort(w))
@@ -444,6 +450,7 @@ func (g *CGen) run() {
 	}
 	g.obls = append(g.obls, &Obl{Name: g.key + ":canary:entry", Kind: "canary", Func: g.key, Prefix: len(g.cmds), Goal: "false", Canary: true, Pos: g.cpos()})
 	g.pushScope()
+	g.addrTaken = g.addressTaken(g.cf.Body)
 	g.reassigned = g.assignedLocalsOpt(g.cf.Body, false)
 	g.directLocals = map[string]cVal{}
 	assigned := g.assignedLocals(g.cf.Body)
@@ -455,7 +462,7 @@ func (g *CGen) run() {
 			continue
 		}
 		addr := g.newLocal(p.Name, t)
-		g.storeVal(addr, t, g.params[p.Name])
+		g.storeVal(addr, g.allLocal[p.Name].T, g.params[p.Name])
 	}
 	g.stmt(g.cf.Body)
 	// falling off the end of a void function
@@ -486,6 +493,12 @@ func (g *CGen) pushScope() { g.locals = append(g.locals, map[string]cVal{}) }
 func (g *CGen) popScope()  { g.locals = g.locals[:len(g.locals)-1] }
 
 func (g *CGen) newLocal(name string, t types.Type) string {
+	if !g.M.BV && !isComposite(t) && !isOpaque(t) && !g.addrTaken[name] {
+		switch g.L.CellSort(t) {
+		case "Int", "Bool", "Ptr":
+			t = wrapLocal(t) // a scalar whose address is never taken: kept apart from the data heaps
+		}
+	}
 	o := g.newObject(g.cur)
 	g.assume(sEq(app("objsize", o), g.M.IxLit(g.L.Size(t))))
 	g.assume(sEq(app("objtype", o), "0"))
@@ -579,7 +592,7 @@ func (g *CGen) stmt(n *cNode) {
 					g.cfail("initializer lists are not supported")
 				}
 				v := g.rvalue(init)
-				g.storeVal(addr, t, g.convTo(v, t))
+				g.storeVal(addr, g.allLocal[d.Name].T, g.convTo(v, t))
 			}
 		}
 	case "IfStmt":
@@ -951,6 +964,62 @@ func (g *CGen) assignedLocalsOpt(n *cNode, withDecls bool) map[string]bool {
 	return out
 }
 
+// addressTaken returns the names of the variables whose address is taken (&x, &x.f, &x[i]) or that decay to a pointer.
+func (g *CGen) addressTaken(n *cNode) map[string]bool {
+	out := map[string]bool{}
+	root := func(x *cNode) string {
+		for x != nil {
+			switch x.Kind {
+			case "DeclRefExpr":
+				if x.Ref != nil && (x.Ref.Kind == "VarDecl" || x.Ref.Kind == "ParmVarDecl") {
+					return x.Ref.Name
+				}
+				return ""
+			case "ParenExpr", "ImplicitCastExpr", "CStyleCastExpr":
+				x = x.Inner[0]
+			case "MemberExpr":
+				if x.IsArrow {
+					return ""
+				}
+				x = x.Inner[0]
+			case "ArraySubscriptExpr":
+				b := x.Inner[0]
+				for b.Kind == "ImplicitCastExpr" || b.Kind == "ParenExpr" {
+					if b.Kind == "ImplicitCastExpr" && b.CastKind != "ArrayToPointerDecay" {
+						return ""
+					}
+					b = b.Inner[0]
+				}
+				x = b
+			default:
+				return ""
+			}
+		}
+		return ""
+	}
+	var walk func(x *cNode)
+	walk = func(x *cNode) {
+		if x == nil {
+			return
+		}
+		if x.Kind == "UnaryOperator" && x.Opcode == "&" {
+			if r := root(x.Inner[0]); r != "" {
+				out[r] = true
+			}
+		}
+		if x.Kind == "ImplicitCastExpr" && x.CastKind == "ArrayToPointerDecay" {
+			if r := root(x.Inner[0]); r != "" {
+				out[r] = true
+			}
+		}
+		for _, c := range x.Inner {
+			walk(c)
+		}
+	}
+	walk(n)
+	return out
+}
+
 func (g *CGen) containsCall(n *cNode) bool {
 	if n == nil {
 		return false
@@ -983,6 +1052,7 @@ func isCBool(t types.Type) bool {
 
 // convTo converts rvalue v to C type t (integer conversions, bool <-> int).
 func (g *CGen) convTo(v cVal, t types.Type) string {
+	v.T, t = unwrapLocal(v.T), unwrapLocal(t)
 	if types.Identical(v.T, t) {
 		return v.S
 	}
@@ -1185,7 +1255,7 @@ func (g *CGen) rvalueOpt(n *cNode, discard bool) cVal {
 			}
 		}
 		lv := g.lvalue(n)
-		return cVal{S: g.loadVal(lv.S, lv.T), T: lv.T}
+		return cVal{S: g.loadVal(lv.S, lv.T), T: unwrapLocal(lv.T)}
 	case "ImplicitCastExpr", "CStyleCastExpr":
 		t := g.ctype(n.Type)
 		switch n.CastKind {
@@ -1203,7 +1273,7 @@ func (g *CGen) rvalueOpt(n *cNode, discard bool) cVal {
 			if isComposite(lv.T) {
 				return cVal{S: lv.S, T: lv.T} // aggregate rvalues are handled by address
 			}
-			return cVal{S: g.loadVal(lv.S, lv.T), T: lv.T}
+			return cVal{S: g.loadVal(lv.S, lv.T), T: unwrapLocal(lv.T)}
 		case "ArrayToPointerDecay":
 			lv := g.lvalue(n.Inner[0])
 			if isOpaque(lv.T) {
@@ -1240,7 +1310,7 @@ func (g *CGen) rvalueOpt(n *cNode, discard bool) cVal {
 		return g.binary(n, discard)
 	case "CompoundAssignOperator":
 		lv := g.lvalue(n.Inner[0])
-		cur := cVal{S: g.loadVal(lv.S, lv.T), T: lv.T}
+		cur := cVal{S: g.loadVal(lv.S, lv.T), T: unwrapLocal(lv.T)}
 		rhs := g.rvalue(n.Inner[1])
 		op := strings.TrimSuffix(n.Opcode, "=")
 		var res cVal
@@ -1276,7 +1346,7 @@ func (g *CGen) rvalueOpt(n *cNode, discard bool) cVal {
 		if isComposite(lv.T) {
 			return cVal{S: lv.S, T: lv.T}
 		}
-		return cVal{S: g.loadVal(lv.S, lv.T), T: lv.T}
+		return cVal{S: g.loadVal(lv.S, lv.T), T: unwrapLocal(lv.T)}
 	case "UnaryExprOrTypeTraitExpr":
 		// sizeof: in cells of the abstract memory model (bytes for byte arrays)
 		var t types.Type
@@ -1320,19 +1390,30 @@ func (g *CGen) constIn(v *big.Int, t types.Type) (*big.Int, bool) {
 }
 
 func promote(a, b types.Type) types.Type {
-	// operands of compound assignments: clang has converted the rhs already; use the wider of the two
+	// usual arithmetic conversions of C for the operands of a compound assignment (clang has made them explicit
+	// on the right operand only): integer promotion to int, then the wider type; at equal width unsigned wins
 	ab, ok1 := a.Underlying().(*types.Basic)
 	bb, ok2 := b.Underlying().(*types.Basic)
 	if !ok1 || !ok2 {
 		return a
 	}
-	wa, _ := intBits(ab)
-	wb, _ := intBits(bb)
-	if wb > wa {
-		return b
-	}
+	wa, sa := intBits(ab)
+	wb, sb := intBits(bb)
 	if wa < 32 {
-		return types.Typ[types.Int32]
+		a, wa, sa = types.Typ[types.Int32], 32, true
+	}
+	if wb < 32 {
+		b, wb, sb = types.Typ[types.Int32], 32, true
+	}
+	switch {
+	case wb > wa:
+		return b
+	case wa > wb:
+		return a
+	case !sa:
+		return a
+	case !sb:
+		return b
 	}
 	return a
 }
@@ -1357,7 +1438,7 @@ func (g *CGen) unary(n *cNode, discard bool) cVal {
 		if isComposite(lv.T) {
 			return cVal{S: lv.S, T: lv.T}
 		}
-		return cVal{S: g.loadVal(lv.S, lv.T), T: lv.T}
+		return cVal{S: g.loadVal(lv.S, lv.T), T: unwrapLocal(lv.T)}
 	case "!":
 		v := g.rvalue(n.Inner[0])
 		if v.Const != nil {
@@ -1388,7 +1469,7 @@ func (g *CGen) unary(n *cNode, discard bool) cVal {
 		g.cfail("~ on a non-constant in int mode")
 	case "++", "--":
 		lv := g.lvalue(n.Inner[0])
-		cur := cVal{S: g.loadVal(lv.S, lv.T), T: lv.T}
+		cur := cVal{S: g.loadVal(lv.S, lv.T), T: unwrapLocal(lv.T)}
 		op := "+"
 		if n.Opcode == "--" {
 			op = "-"
